@@ -3,14 +3,24 @@
 Three parts (DESIGN 4.C04):
 
 * Lean (`DS.Props.C04`, `DS.Lemmas.Dec`, `DS.Lemmas.Formats`): exact-decimal text layer
-  (`fmtF`, `fmtG`, `parseDec`, tokenisation) with unbounded round-trip theorems, and per-format
-  record models `write_f` / `parse_f` / `quant_f` / `Repr_f` with `roundtrip_f`, `idem_f`.
-* Correspondence: seeded random structures drawn from `Repr_f`; the text of the real writer is
-  compared token by token with the text of the Lean model (values shipped as the exact fractions
-  of the doubles), the model's parse of the *real* text is compared with the re-read structure.
+  (`fmtF`, `fmtG`, `parseDec`, tokenisation, fixed columns) with unbounded theorems, and per-format
+  record models `write_f` / `parse_f` / `quant_f` / `repr_f`; `roundtrip_f`, `idem_f` are proved at
+  the string level for xyz, rawxyz, discus, pdffit, pdb; for xcfg and cif the full statements are
+  kept as `def ..._statement : Prop` and record-level fragments are proved.
+* Correspondence (all seven formats): seeded random structures drawn from the formats' ranges;
+  the text of the real writer is compared token by token with the text of the Lean model (values
+  shipped as the exact fractions of the doubles), the model's reading of the *real* text is compared
+  with the re-read structure, and `parse(write(d)) = quant(d)` is evaluated in the model for every
+  document; this is repeated for each of the three trips.
 * Oracle (always run, model-free): write -> read -> compare every carried field to the printed
-  precision; three trips; the text must be a fixed point from the second trip on and may differ
-  from the first one only by one unit of the last printed place in derived quantities.
+  precision; three trips; from the second trip on the text and the structure must be fixed points;
+  the same trips on ONE object (`stru.readStr(stru.writeStr(f), f)` and `stru.write(p, f);
+  stru.read(p, f)`) must give what a fresh `Structure().readStr` gives.
+
+Failure keys: `<fmt>:<field>` (first trip), `<fmt>:drift` (text not a fixed point),
+`<fmt>:drift:adp-switch`, `<fmt>:<field>:second-trip`, `<fmt>:write<n>-fails:<Exc>`,
+`<fmt>:read<n>-fails:<Exc>`, `<fmt>:inplace-str|file:<what>`, `tie:<fmt>` (model and implementation
+disagree and no failing input was found), `xyz:empty-blank-title`, `cif:empty-structure`.
 """
 import json
 import math
@@ -620,8 +630,8 @@ def inplace_trips(fmt, fresh, ref_texts, ref_strus):
                 # subject (open findings stale-attr:*), not C04's; Structure.read() also names an
                 # untitled structure after the file
                 ign = ref["title"] == ""
-                if variant == "file" and ign:
-                    s.title = ""
+                if ign:
+                    s.title = ""          # do not let a left-over title leak into the next text
                 msg = same_snapshot(ref, got, ignore_title=ign)
                 if msg:
                     return ("%s:inplace-%s:structure" % (fmt, variant), what + "the object holds " + msg + " (compared with a fresh Structure().readStr of the same text)")
@@ -1498,10 +1508,13 @@ def run(ck):
     ck.coverage["byte_identical_texts"] = nbyte
     ck.coverage["samples"] = [describe(c[1])[:300] + " -> " + c[0] for c in cases[len(corpus()):len(corpus()) + 3]]
     ck.assumptions += [
-        "double <-> decimal: Python's % formatting of a double is the correctly rounded (half-even) decimal of its exact value, and float() of a printed decimal is the nearest double (CPython dtoa); the Lean model computes on the exact rationals",
-        "the documents shipped to the model are read off the structure through the public API (a.xyz_cartn, a.Bisoequiv, lattice.abcABG() ...): lattice/ADP conversions inside readers are not part of the text model (C01/C09/C14)",
-        "PyCifRW tokenisation of the written CIF is exercised by the oracle only",
-        "element symbols and free text are restricted to what Repr_f states (printable ASCII elements, one-line titles)",
+        "double <-> decimal: Python's % formatting of a double is the correctly rounded (half-even) decimal of its exact value, and float() of a printed decimal is the nearest double (CPython dtoa); the Lean model computes on the exact rationals (and on exactly rounded doubles, `fl`, where the XCFG writer computes before printing)",
+        "the documents shipped to the model are read off the structure through the public API (a.xyz_cartn, a.Bisoequiv, a.U, lattice.abcABG(), lattice.base ...): lattice/ADP conversions inside readers and writers (Cartesian <-> fractional, B <-> U, isotropic tensors in oblique cells, placeInLattice) are not part of the text model (C01/C09/C14); the AtomicMass table of p_xcfg is read from the module",
+        "PyCifRW (tokeniser/grammar of the CIF reader) is exercised by the oracle only; the Lean CIF reader recognises the layout P_cif.toLines emits and applies diffpy's glue",
+        "element symbols and free text are restricted to what range_f states (printable ASCII elements, one-line titles); Python's Unicode case mapping / digit parsing outside ASCII is not modelled",
+        "degenerate cells (Lattice raising) are outside the generator; Cell6.ok states the non-degeneracy condition but Lattice's acceptance of exactly these cells is C01's subject",
+        "PDB SIGATM/SIGUIJ records and standard deviations (sigxyz, sigo, sigU other than the zero defaults of pdffit) are not generated; PDB titles longer than 60 characters are compared with the model but not covered by roundtrip_pdb",
+        "attributes a format has no record for (title in rawxyz/xcfg/cif, pdffit/xcfg dictionaries) left over by an in-place read are C16's subject and are ignored here",
     ]
     if not ok and not ck.violations:
         ck.fail("lean-build", "Lean obligations of C04 no longer check: %r" % linfo["failed_modules"],
